@@ -9,7 +9,9 @@ import (
 
 	"github.com/cronokirby/saferith"
 	"github.com/taurusgroup/multi-party-sig/pkg/ecdsa"
+	"github.com/taurusgroup/multi-party-sig/internal/round"
 	"github.com/taurusgroup/multi-party-sig/pkg/math/curve"
+	"github.com/taurusgroup/multi-party-sig/pkg/math/polynomial"
 	"github.com/taurusgroup/multi-party-sig/pkg/party"
 	"github.com/taurusgroup/multi-party-sig/pkg/protocol"
 	"github.com/taurusgroup/multi-party-sig/protocols/cmp"
@@ -25,7 +27,7 @@ func init() {
 	vk.Register(&vk.Check{
 		ID:    "C04",
 		Level: "fault_enumeration",
-		Rule: "(1) the C03 fault catalogue (every field of every message of one corrupted participant x typed alterations x echo-consistent / wire-only, plus whole-message substitutions), judged by the culprit oracle: for an error an honest party detected itself every named culprit is the corrupted participant, a relayed abort names exactly the sender of a notice that was delivered to it, no honest party names itself, and a decode/verify failure names the message's sender; (2) state-level deviations of a CMP presigner that keep every individual proof valid (wrong chi via the ECDSA share, wrong gamma, delta share off by one with an echo-consistent broadcast, sigma share off by one online), in the offline, full and online variants, every cheater position, abort notices suppressed so that every honest signer must reach its own verdict: each must end with culprits = [cheater]; " +
+		Rule: "(1) the C03 fault catalogue (every field of every message of one corrupted participant x typed alterations x echo-consistent / wire-only, plus whole-message substitutions), judged by the culprit oracle: for an error an honest party detected itself every named culprit is the corrupted participant, a relayed abort names exactly the sender of a notice that was delivered to it, no honest party names itself, and a decode/verify failure names the message's sender; (2) state-level deviations of a CMP presigner that keep every individual proof valid (wrong chi via the ECDSA share, wrong gamma, delta share off by one with an echo-consistent broadcast, sigma share off by one online), in the offline, full and online variants, every cheater position, abort notices suppressed so that every honest signer must reach its own verdict: each must end with culprits = [cheater]; (3) a CMP key generation / refresh in which the cheater shares with a polynomial of degree t-1 (all commitments, proofs and shares consistent): whoever refuses names the cheater and nobody names an honest party or itself; " +
 			"distinct non-trivial = distinct (protocol, position, fault class) runs with at least one culprit list judged, plus distinct (variant, deviation, position, n) identifiable-abort runs",
 		MinDistinct:  100,
 		Assumptions:  []string{"ground truth = the simulator knows which participant deviates and which abort notices were delivered", "state-level deviations alter the cheater's round object by reflection between deliveries"},
@@ -51,6 +53,11 @@ func c04Cases(env vk.Env) []vk.Case {
 				cs = append(cs, vk.Case{ID: fmt.Sprintf("identifiable-abort/%s/%s/pos1/n4", variant, d), Run: func(t *vk.T) { c04State(t, variant, d, 1, 4) }})
 			}
 		}
+	}
+	for pos := 0; pos < env.Pick(2, 6); pos++ {
+		pos := pos
+		cs = append(cs, vk.Case{ID: fmt.Sprintf("low-degree/cmp-keygen/pos%d", pos), Run: func(t *vk.T) { c04LowDegree(t, "cmp-keygen", pos, 3+pos/3, 2) }})
+		cs = append(cs, vk.Case{ID: fmt.Sprintf("low-degree/cmp-refresh/pos%d", pos), Run: func(t *vk.T) { c04LowDegree(t, "cmp-refresh", pos, 3+pos/3, 2) }})
 	}
 	for pos := 0; pos < env.Pick(2, 3); pos++ {
 		pos := pos
@@ -341,4 +348,105 @@ func c04Online(t *vk.T, pos, n int) {
 		}
 	}
 	t.Sample(map[string]any{"kind": "identifiable abort", "variant": "online", "deviation": "sigma share +1 (echo-consistent)", "cheater": string(C), "outcomes": fx.Describe(outs)})
+}
+
+// c04LowDegree: the cheater shares its secret with a polynomial of degree t-1 (otherwise fully consistent: valid
+// commitments, proofs and shares).  Whoever refuses must name the cheater, and nobody may name an honest party
+// or itself.  Abort notices are suppressed so that every honest party reaches its own verdict.
+func c04LowDegree(t *vk.T, proto string, pos, n, th int) {
+	r := t.Rng
+	fx.InstallPrimeHook()
+	fx.SetPrimeOffset(uint64(r.Intn(1000)))
+	ids := fx.IDs(r, r.Intn(3), n)
+	C := ids[pos%n]
+	applied, infra := false, ""
+	var cm *fx.CMPMat
+	if proto == "cmp-refresh" {
+		cm = fx.NewCMPMatDealt(ids, th)
+	}
+	start := func(id party.ID) protocol.StartFunc {
+		var sf protocol.StartFunc
+		if proto == "cmp-refresh" {
+			sf = cmp.Refresh(fx.CloneCMP(cm.Cfgs[id]), nil)
+		} else {
+			sf = cmp.Keygen(group, id, ids, th, nil)
+		}
+		if id != C {
+			return sf
+		}
+		return func(sid []byte) (round.Session, error) {
+			s, err := sf(sid)
+			if err != nil || s == nil {
+				return s, err
+			}
+			fv, ok := fieldOf(reflect.ValueOf(s), "VSSSecret")
+			if !ok {
+				infra = "INFRASTRUCTURE: field VSSSecret not reachable in " + reflect.TypeOf(s).String()
+				return s, err
+			}
+			old, ok := fv.Interface().(*polynomial.Polynomial)
+			if !ok || old == nil {
+				infra = "INFRASTRUCTURE: VSSSecret is not a polynomial"
+				return s, err
+			}
+			fv.Set(reflect.ValueOf(polynomial.NewPolynomial(group, th-1, old.Constant())))
+			applied = true
+			return s, err
+		}
+	}
+	n2, _, err := fx.RunMulti(r, ids, start, fx.Opt{SessionID: r.Bytes(4), NoRun: true})
+	if err != nil {
+		t.Inconclusive("start: %v", err)
+		return
+	}
+	n2.Party(C).Corrupt = true
+	n2.OnDeliver = func(_ *sim.Net, d *sim.Delivery) []*sim.Delivery {
+		if d.Round == 0 {
+			return nil
+		}
+		return []*sim.Delivery{d}
+	}
+	var perr string
+	if p, fr, txt := vk.Guard(func() { n2.Run() }); p {
+		perr = fr + ": " + txt
+	}
+	t.Obs("evaluations", 1)
+	tag := fmt.Sprintf("%s n=%d t=%d cheater=%q (position %d) deviation=polynomial-of-degree-t-1", proto, n, th, C, pos%n)
+	if infra != "" || !applied {
+		t.Inconclusive("%s: the deviation could not be applied %s", tag, infra)
+		return
+	}
+	t.Distinct("low-degree|%s|pos=%d|n=%d|t=%d", proto, pos%n, n, th)
+	if perr != "" {
+		t.Violation("low-degree|"+proto+"|panic", "%s: a participant panicked: %s", tag, truncStr(perr, 200))
+		return
+	}
+	outs := fx.Outcomes(n2)
+	for _, o := range outs {
+		if o.ID == C {
+			continue
+		}
+		t.Obs("low_degree|honest_"+o.State, 1)
+		if o.State != "failed" {
+			continue
+		}
+		var pe protocol.Error
+		if !errors.As(o.Err, &pe) {
+			continue
+		}
+		t.Obs("errors_with_culprit_lists_judged", 1)
+		for _, c := range pe.Culprits {
+			if c == o.ID {
+				t.Violation("low-degree|"+proto+"|honest-party-blames-itself", "%s: honest party %q ends with culprits %v (%s)", tag, o.ID, pe.Culprits, truncStr(pe.Err.Error(), 140))
+			} else if c != C {
+				t.Violation("low-degree|"+proto+"|honest-party-blamed", "%s: honest party %q names the honest party %q (%s)", tag, o.ID, c, truncStr(pe.Err.Error(), 140))
+			}
+		}
+		if len(pe.Culprits) == 0 {
+			t.Violation("low-degree|"+proto+"|verification-failure-not-attributed", "%s: honest party %q refused (%s) without naming the sender", tag, o.ID, truncStr(pe.Err.Error(), 140))
+		}
+	}
+	if pos == 0 {
+		t.Sample(map[string]any{"kind": "low-degree sharing polynomial", "protocol": proto, "cheater": string(C), "outcomes": fx.Describe(outs)})
+	}
 }
